@@ -1,3 +1,4 @@
 pub mod ast;
 pub mod eval;
 pub mod pgen;
+pub mod rename;
